@@ -99,7 +99,24 @@ def gen_model(r, slices=("F1",), n_classes=None, prims=None):
                     for f in run:
                         f["sequence"] = 1
                     break
-    if "F3" in slices and len(classes) >= 2 and r.random() < 0.6:
+    if "F4" in slices:
+        # twin classes: same element/attribute names, different primitive types; used through Union[...] fields
+        k = len(classes)
+        tw = []
+        for name, tp, kind in ((f"C{k}", "int", r.choice(["Element", "Attribute"])), (f"C{k + 1}", "str", None)):
+            kind = kind or tw[0]["fields"][0]["kind"]
+            tw.append({"name": name, "meta": {"name": "twin"}, "base": None, "simple": False, "twin": True,
+                       "fields": [{"name": "value", "kind": kind, "type": ("prim", tp), "optional": False, "list": False},
+                                  {"name": "extra", "kind": "Attribute", "type": ("prim", "bool"), "optional": True}]})
+        classes.extend(tw)
+        host = classes[0]
+        if not host.get("simple") and not any(f.get("mixed") for f in host["fields"]):
+            host["fields"].append({"name": "u0", "kind": "Element", "type": ("union", [tw[0]["name"], tw[1]["name"]]),
+                                   "optional": True, "list": r.random() < 0.4})
+            if r.random() < 0.5:
+                host["fields"].append({"name": "u1", "kind": "Element", "type": ("punion", ["int", "str"]),
+                                       "optional": True, "list": r.random() < 0.4})
+    if "F3" in slices and len(classes) >= 2 and r.random() < 0.6 and not classes[-1].get("twin"):
         # make the last class a subclass of the one before it, used through xsi:type
         sub, base = classes[-1], classes[-2]
         if not any(fl.get("type") == ("class", sub["name"]) for fl in base["fields"]) and sub.get("simple") == base.get("simple") \
@@ -214,6 +231,10 @@ def gen_type(r, prims, enums, later):
 def py_type_of(tp):
     if tp[0] == "prim":
         return PY_TYPE[tp[1]]
+    if tp[0] == "union":
+        return "Union[" + ", ".join('"%s"' % n for n in tp[1]) + "]"
+    if tp[0] == "punion":
+        return "Union[" + ", ".join(PY_TYPE[n] for n in tp[1]) + "]"
     return tp[1]   # enum or class name (forward refs are strings)
 
 
@@ -229,6 +250,7 @@ def render_field(f):
     if kind in ("Element", "Attribute", "Text"):
         base = py_type_of(f["type"])
         q = f'"{base}"' if f["type"][0] == "class" else base
+
         if f.get("tokens"):
             inner = f"list[{q}]"
             ann = f"list[{inner}]" if f.get("list") else inner
@@ -399,6 +421,14 @@ def gen_value(r, m, f, depth, class_ns=None):
         tp = f["type"]
 
         def one():
+            if tp[0] == "union":
+                return gen_instance(r, m, r.choice(tp[1]), depth + 1)
+            if tp[0] == "punion":
+                k = r.choice(tp[1])
+                p = gen_prim(r, m, ("prim", k))
+                if k == "str":
+                    p["v"] = "n/a " + p["v"].strip()     # not convertible to the earlier candidate types
+                return p
             if tp[0] == "class":
                 subs = subclasses_of(m, tp[1])
                 name = r.choice(subs) if subs and r.random() < 0.5 else tp[1]
@@ -462,7 +492,12 @@ def gen_value(r, m, f, depth, class_ns=None):
 def gen_instance(r, m, cname, depth=0):
     c = find_class(m, cname)
     cns = class_namespace(m, c)
-    return {"__cls__": cname, "fields": {f["name"]: gen_value(r, m, f, depth, cns) for f in all_fields(m, c)}}
+    rec = {"__cls__": cname, "fields": {f["name"]: gen_value(r, m, f, depth, cns) for f in all_fields(m, c)}}
+    if c.get("twin"):
+        v = rec["fields"]["value"]
+        if v.get("__p__") == "str":
+            v["v"] = "n/a" + v["v"].strip()          # a value only the str twin can hold
+    return rec
 
 
 # ------------------------------------------------------------------ impl side
